@@ -202,6 +202,10 @@ pub fn actions(nbasis: usize) -> Vec<Action> {
         v.push(Action { steps: vec![StageStep { index: i, q: hi }], max_step: 0.1 });
         v.push(Action { steps: vec![StageStep { index: i, q: hi }], max_step: 1. });
     }
+    for i in 0..3.min(nbasis) {
+        // two extreme shrinks of a cell parameter inside one stage: reaches its lower bound
+        v.push(Action { steps: vec![StageStep { index: i, q: 0. }, StageStep { index: i, q: 0. }], max_step: 1. });
+    }
     for i in 0..2.min(nbasis) {
         v.push(Action { steps: vec![StageStep { index: i, q: 0. }, StageStep { index: i, q: hi }], max_step: 0.1 });
         v.push(Action { steps: vec![StageStep { index: i, q: 0.25 }, StageStep { index: i, q: hi }], max_step: 1. });
